@@ -70,12 +70,14 @@ def strOf : Cfg.StrArg → Text
 
 /-- delimiter argument: a string, or a rune other than NUL; anything else unsets -/
 def delimOf : Cfg.StrArg → Text
-  | .rune 0 => []
-  | x => strOf x
+  | .str s => s
+  | .rune r => if r = 0 then [] else Cfg.runeStr r
+  | .nil => []
+  | .other => []
 
 /-- a new group is refused when one of its (first two) strings already occurs in a stored group -/
 def clashes (enc : List (List Text)) (x : List Text) : Bool :=
-  (x.take 2).any (fun s => enc.any (fun g => g.any (· == s)))
+  (x.take 2).any (fun s => enc.any (fun g => g.contains s))
 
 def addGroup (enc : List (List Text)) (x : List Text) : List (List Text) :=
   if x.isEmpty || clashes enc x then enc else enc ++ [x]
@@ -87,31 +89,27 @@ def encArg (enc : List (List Text)) : Cfg.EncArg → List (List Text)
 
 /-! ### log levels -/
 
-def levelNames : List String :=
+def levelNames : List Text :=
   ["CALLS", "POLICY", "STATE", "DEBUG", "ERROR", "TRACE", "USER1", "USER2", "USER3", "USER4", "USER5", "USER6", "USER7", "USER8",
-   "USER9", "USER10"]
+   "USER9", "USER10"].map String.toList
 
 def noLevels : List Bool := List.replicate 16 false
 def allLevels : List Bool := List.replicate 16 true
 
+/-- level number `i` alone -/
 def only (i : Nat) : List Bool := (List.range 16).map (· == i)
+
+/-- what each level name stands for -/
+def levelTable : List (Text × List Bool) :=
+  ("NONE".toList, noLevels) :: ("ALL".toList, allLevels) :: (levelNames.zip (List.range 16)).map (fun p => (p.1, only p.2))
 
 /-- the 16 switches a number denotes -/
 def bitsOf (n : Nat) : List Bool := (List.range 16).map (fun i => n / 2 ^ i % 2 == 1)
 
-/-- upper-casing of a level name (ASCII, plus the two code points whose upper case is ASCII) -/
-def upper (s : Text) : Text :=
-  s.map (fun c => if c = 'ı' then 'I' else if c = 'ſ' then 'S' else c.toUpper)
-
-/-- which switches an argument names; `none` = not a level at all (unknown name or foreign type) -/
+/-- which switches an argument names; `none` = not a level at all (unknown name or foreign type). Names are
+matched without regard to case (`LogLevel.uc`). -/
 def levelsOf : LogLevel.Arg → Option (List Bool)
-  | .name s =>
-    let u := String.ofList (upper s)
-    if u == "NONE" then some noLevels
-    else if u == "ALL" then some allLevels
-    else match levelNames.idxOf? u with
-      | some i => some (only i)
-      | none => none
+  | .name s => levelTable.lookup (LogLevel.uc s)
   | .const l => some (bitsOf l)
   | .raw i => some (bitsOf (i % 65536).toNat)
   | .other => none
@@ -141,10 +139,10 @@ def unsetLevels (lv : List Bool) : List LogLevel.Arg → List Bool
       else if bs == allLevels then lv
       else unsetLevels (List.zipWith (fun b x => b && !x) lv bs) rest
 
-def levelString (lv : List Bool) : String :=
-  if lv == allLevels then "ALL"
-  else if lv == noLevels then "NONE"
-  else ",".intercalate ((lv.zip levelNames).filterMap (fun p => if p.1 then some p.2 else none))
+def levelString (lv : List Bool) : Text :=
+  if lv == allLevels then "ALL".toList
+  else if lv == noLevels then "NONE".toList
+  else LogLevel.join [','] ((lv.zip levelNames).filterMap (fun p => if p.1 then some p.2 else none))
 
 /-! ### one call -/
 
